@@ -85,6 +85,17 @@ def check(case, acc):
       acc.violation("C06.text", f"{cfg[0]}:unparseable-output", cc, observed=str(e)[:200],
                     expected="output in which every line of text belongs to a cue", note="the output cannot be split into cues")
     return
+  # the payload with tags removed is a function of the document: it must not depend on the text_formatting option
+  if cfg == ("srt", False):
+    try:
+      other, _ = wc.parse_output(wc.run_writer(build(spec), ("srt", True)), ("srt", True))
+      a = [(c.begin, c.end, [wc.norm_ws(ln) for ln in c.lines]) for c in cues]
+      b = [(c.begin, c.end, [wc.norm_ws(ln) for ln in c.lines]) for c in other]
+      if a != b:
+        acc.violation("C06.text", "srt:payload-depends-on-text_formatting", cc, observed=str(a)[:300], expected=str(b)[:300],
+                      note="cue list with text_formatting=False differs from the tag-free payloads written with text_formatting=True")
+    except Exception:  # pylint: disable=broad-except
+      pass      # failures of the formatted rendition are reported by its own case
   probes, _allms = admissible_probes(K)
   nonblank = False
   if cfg[0] == "srt" and any(_SRT_MARKUP.search(n.get("t", "")) for n, _ in _walk(spec["body"]) if n["k"] == "text"):
